@@ -166,3 +166,26 @@ func VerifH_C01_real_chain_outcomes() {
 	verifrt.Assert(ea.VerifAllClosed() && eb.VerifAllClosed(), "every deployed plugin (including the schema probes) was closed")
 	verifrt.Assert(verifrt.LiveGoroutines() == 0, "no goroutine survives the run")
 }
+
+// C09 / composition: two independent REAL plugin steps feed the only output. One goroutine may be slow at
+// any one point for as long as it takes everything else - the detector's retry timers included - to come
+// to rest ("stall" decision of the scheduler): the healthy run still returns its success output.
+func VerifH_C09_real_parallel() {
+	ea, eb := plugin.VerifNewScriptedEnv("success"), plugin.VerifNewScriptedEnv("success")
+	steps := []vRealStep{
+		{id: "a", env: ea, fields: map[string]any{"input": verifStepInput(vx("input"))}},
+		{id: "b", env: eb, fields: map[string]any{"input": verifStepInput(vx("input"))}},
+	}
+	ew := verifPrepareReal(steps, map[string]any{"success": map[any]any{
+		"a": vx("steps", "a", "outputs", "success", "v"),
+		"b": vx("steps", "b", "outputs", "success", "v"),
+	}})
+	res := verifExecute(ew, newRun(), tWorkflow{}, verifrt.NondetVal("input"))
+	verifrt.Assert(!res.stuck, "the run returns")
+	verifrt.Assert(res.err == nil && res.id == "success", "a healthy run returns its success output however slow one goroutine is")
+	if res.err == nil {
+		verifrt.Reach("output")
+	}
+	verifrt.Settle()
+	verifrt.Assert(verifrt.LiveGoroutines() == 0, "no goroutine survives the run")
+}
